@@ -65,8 +65,9 @@ func readExport(path string) ([]mcScenario, error) {
 
 var c11Structs = map[string][2]string{
 	// key -> {empty variant, fielded variant}
-	"K1": {"type S1 struct{}", "type S1 struct {\n\tA int\n\tN *S1\n}"},
-	"K2": {"type S2 struct{}", "type S2 struct {\n\tB string\n\tL []int\n}"},
+	// the fielded K1 (first key of every canonical scenario) needs helpers: for []int and for *S2
+	"K1": {"type S1 struct{}", "type S1 struct {\n\tA int\n\tL []int\n\tP *S2\n}"},
+	"K2": {"type S2 struct{}", "type S2 struct {\n\tB string\n\tN *S2\n}"},
 	"K3": {"type S3 struct{}", "type S3 struct {\n\tC bool\n\tM map[string]int\n}"},
 }
 
